@@ -37,7 +37,9 @@ MANIFEST = dict(
           "back through recording constructors mirroring the real registrations (same config type and default func, taken from the registry), "
           "and a sample also with the real constructors; TLC evaluates the property invariants on every observed result and compares outcome "
           "and each leaf with the model. Right level: the statement quantifies over all config paths and field positions; tests decode toy structs."),
-    note=("Also: value classes that follow from the kind of a leaf (fractional / out-of-range number into an integer option, negative into an "
+    note=("Also: several placeholders in one value (resolvable / empty / unresolvable in every position, env, property and mixed sources, "
+          "with and without literal text: an error iff any of them cannot be resolved), oneof value classes incl. values made of several "
+          "allowed words, value classes that follow from the kind of a leaf (fractional / out-of-range number into an integer option, negative into an "
           "unsigned one, integral float accepted), every value class also delivered through a placeholder, the moment an error is reported "
           "(load | first call of the factory of a lazily decoded section: rps, grpc guns) pinned, and the input channel of the CLI reader x file "
           "syntax (file .yaml/.yml/no extension/.json/.toml, stdin, ./load.yaml, ./load.json, ./config/load.yaml with decoys in the search "
@@ -48,7 +50,8 @@ MANIFEST = dict(
 )
 
 NEGS = ["ConfigDecode_neg_unused.cfg", "ConfigDecode_neg_novalidate.cfg", "ConfigDecode_neg_weak.cfg",
-        "ConfigDecode_neg_unset.cfg", "ConfigDecode_neg_discard.cfg", "ConfigDecode_neg_stdin.cfg"]
+        "ConfigDecode_neg_unset.cfg", "ConfigDecode_neg_discard.cfg", "ConfigDecode_neg_stdin.cfg",
+        "ConfigDecode_neg_oneofwords.cfg", "ConfigDecode_neg_lastonly.cfg"]
 INVS = ["NoPanic", "Conforms", "TStage", "TStrict", "TTyped", "TConstrained", "TPlaceholders", "TNoSpuriousError", "TValues"]
 
 
@@ -77,6 +80,8 @@ def case_sig(row, variants):
         s += " value=%s" % c["src"]
     if c["kind"] == "phadv":
         s += " src=%s scenario=%d" % (c["src"], c["x"])
+    if c["kind"] in ("phmulti", "phmultisep"):
+        s += " src=%s pattern=%d" % (c["src"], c["x"])
     if c["kind"] in ("range", "phrange"):
         s += " class=%d" % c["i"]
     comp = component_of(c, variants)
@@ -142,7 +147,7 @@ def validate(v, obs_path, rows, variants, points_path, workers=8):
             json.dumps({k: c[k] for k in ("kind", "p", "i", "src", "set", "x")}) + " " + json.dumps(row.get("_delta", {}).get("set", []))[:200], c["v"], c["base"], row["via"], row["shape"], row["reg"],
             row["out"], (" (%s)" % row["err"][:160]) if row["err"] else "", detail, inv),
             replay_obj={"invariant": inv, "line": {k: row[k] for k in ("c", "via", "mvia", "stage", "shape", "reg", "out", "got", "err")},
-                        "delta": row.get("_delta"), "phval": row.get("_phval"), "adv": row.get("_adv")},
+                        "delta": row.get("_delta"), "phval": row.get("_phval"), "adv": row.get("_adv"), "multi": row.get("_multi")},
             replay_name="confdecode_%d_%s.json" % (ln, inv))
     return tr
 
@@ -393,6 +398,10 @@ def run(tier, v):
         # constraint (rotating with VERIF_SEED) are executed; the design-level run covers all of them, the thorough tier executes all
         n_all = len(cases)
         cases = [c for i, c in enumerate(cases) if c["c"]["kind"] != "phrange" or c["c"]["x"] == 1 or (i + vlib.seed()) % 3 == 0]
+        # several placeholders in one value: every 8th case of the (leaf x source x pattern) space (every 3rd of those with literal
+        # text around the placeholders), rotating with VERIF_SEED; the thorough tier executes all
+        cases = [c for i, c in enumerate(cases) if c["c"]["kind"] not in ("phmulti", "phmultisep")
+                 or (i + vlib.seed()) % (8 if c["c"]["kind"] == "phmulti" else 3) == 0]
         cases_p = os.path.join(d, "cases_quick.ndjson")
         vlib.write_ndjson(cases_p, cases)
         vlib.log("quick tier executes %d of %d cases" % (len(cases), n_all))
@@ -409,7 +418,7 @@ def run(tier, v):
         k = json.dumps(r_["c"], sort_keys=True)
         if k not in by_case:
             raise vlib.MachineryError("driver reported a case TLC did not generate: %s" % k)
-        r_["_delta"], r_["_phval"], r_["_adv"] = by_case[k]["delta"], by_case[k]["phval"], by_case[k]["adv"]
+        r_["_delta"], r_["_phval"], r_["_adv"], r_["_multi"] = by_case[k]["delta"], by_case[k]["phval"], by_case[k]["adv"], by_case[k]["multi"]
         if r_["mvia"] not in ["decode", "cli"] + by_case[k]["vias"]:
             raise vlib.MachineryError("driver used a channel TLC did not list for the case: %s %s" % (r_["mvia"], k))
         if r_["reg"] == "rec" and r_["via"] == "decode":
@@ -488,7 +497,7 @@ def replay(path, v):
     line = obj["line"]
     one = os.path.join(d, "one_case.ndjson")
     chans = [line["mvia"]] if line.get("mvia", "").startswith("cli-") else []
-    vlib.write_ndjson(one, [{"c": line["c"], "delta": obj["delta"], "phval": obj["phval"], "vias": chans,
+    vlib.write_ndjson(one, [{"c": line["c"], "delta": obj["delta"], "phval": obj["phval"], "vias": chans, "multi": obj.get("multi") or {"parts": [], "pre": "", "sep": "", "post": ""},
                              "adv": obj.get("adv") or {"src": "", "eol": "lf", "lines": [], "envs": [], "req": ""}}])
     obs = os.path.join(d, "obs1.ndjson")
     vlib.run_driver(b, ["confdecode", "-variants", variants_p, "-in", one, "-out", obs, "-channels-per-case", "0"])
